@@ -2,8 +2,30 @@
 import json, os, subprocess, re, shutil, random, hashlib
 
 
+def write_mixed(dirpath, nf):
+    """files of all three types whose parsers have per-document state worth racing on: XML with different namespace
+    declarations on many elements, JSON with many different numbers, HTML with many different attributes"""
+    os.makedirs(dirpath, exist_ok=True)
+    paths = []
+    for i in range(1, nf + 1):
+        kind = ("xml", "json", "html")[i % 3]
+        p = os.path.join(dirpath, "f%d.%s" % (i, kind))
+        if kind == "xml":
+            body = "".join('<a xmlns:p%d="urn:p%d-%d" xmlns:q="urn:q%d" n="%d">v%d_%d</a>' % (i, i, k, i * 1000 + k, k, i, k) for k in range(1, 120))
+            text = '<r xmlns:d%d="urn:d%d">%s</r>' % (i, i, body)
+        elif kind == "json":
+            text = json.dumps({"r": [{"a": i * 11111.25 + k, "b": [k * 0.5, -i * k, 1e21 + i]} for k in range(1, 200)]})
+        else:
+            text = "<!DOCTYPE html><html><body>%s</body></html>" % "".join('<a id="i%d_%d" href="/f%d/%d" data-k="%d">t%d_%d</a>' % (i, k, i, k, k, i, k) for k in range(1, 150))
+        open(p, "w").write(text)
+        paths.append(p)
+    return paths
+
+
 def write_files(dirpath, nf, prints, big=False):
     """f1.xml .. fNF.xml; files in `prints` contain <a> elements (two records each under -a)"""
+    if big == "mixed":
+        return write_mixed(dirpath, nf)
     os.makedirs(dirpath, exist_ok=True)
     paths = []
     for i in range(1, nf + 1):
